@@ -245,6 +245,58 @@ inline const std::vector<AddrPair>& same_address_pairs() {
   return pairs;
 }
 
+// ---------------------------------------------------------------- inputs that put a chosen slot at a chosen exact value
+// (selected with the reference hash, once per process): key[s][v] = u64 inputs whose coupon has value v (1..4) and whose
+// address ends in the 7 bits s.  Lets a stream put EVERY slot of a small sketch (lg_k 4..7) at exactly one value, the
+// state in which an HLL_4 array has cur_min = v and all slots "at cur_min".
+struct LevelPool { std::vector<uint64_t> key[128][5]; };
+inline const LevelPool& level_pool() {
+  static LevelPool lp;
+  static bool built = false;
+  if (!built) {
+    built = true;
+    size_t filled = 0;
+    for (uint64_t i = 0; i < 400000 && filled < 128 * 4; ++i) {
+      const uint64_t x = i * 0x9e3779b97f4a7c15ULL + 4242;
+      const uint32_t c = coupon_of_hash(ref_hash_u64(x, HLL_HASH_SEED));
+      const uint32_t v = cp_value(c);
+      if (v > 4) continue;
+      auto& b = lp.key[c & 127u][v];
+      if (b.size() >= 3) continue;
+      b.push_back(x);
+      if (b.size() == 3) ++filled;
+    }
+  }
+  return lp;
+}
+// a u64 input landing in slot `slot` of a 2^lg_k array (lg_k <= 7) with coupon value v (1..4); 0 if the pool has none
+inline bool level_key(Rng& r, unsigned lg_k, uint32_t slot, unsigned v, uint64_t* out) {
+  const LevelPool& lp = level_pool();
+  const uint32_t s7 = slot | (static_cast<uint32_t>(r.below(1u << (7 - lg_k))) << lg_k);
+  const auto& b = lp.key[s7][v];
+  if (b.empty()) return false;
+  *out = b[r.below(b.size())];
+  return true;
+}
+// a stream that raises every slot of a 2^lg_k array to exactly 1, then exactly 2, ... exactly `levels`, each level in a
+// random slot order, with `extras` additional inputs of a higher value placed at random
+inline std::vector<uint64_t> level_stream(Rng& r, unsigned lg_k, unsigned levels, unsigned extras) {
+  std::vector<uint64_t> keys;
+  const uint32_t k = 1u << lg_k;
+  for (unsigned v = 1; v <= levels; ++v) {
+    std::vector<uint32_t> slots(k);
+    for (uint32_t i = 0; i < k; ++i) slots[i] = i;
+    r.shuffle(slots);
+    for (uint32_t sl : slots) { uint64_t x; if (level_key(r, lg_k, sl, v, &x)) keys.push_back(x); }
+  }
+  for (unsigned e = 0; e < extras; ++e) {
+    uint64_t x;
+    const unsigned v = std::min<unsigned>(4, levels + 1 + static_cast<unsigned>(r.below(2)));
+    if (level_key(r, lg_k, static_cast<uint32_t>(r.below(k)), v, &x)) keys.insert(keys.begin() + static_cast<long>(r.below(keys.size() + 1)), x);
+  }
+  return keys;
+}
+
 inline bool rel_eq(double a, double b, double tol) {
   if (a == b) return true;
   if (std::isnan(a) || std::isnan(b)) return false;
